@@ -297,6 +297,14 @@ class MatWorld(World):
 
     # ------------------------------------------------------------------ apply
     def apply(self, op):
+        try:
+            return self._apply(op)
+        except SutError as e:
+            # every call the harness makes on the state Integrate returned is a read of a public method with the
+            # arguments Integrate itself used: it has no reason to raise
+            raise Violation("state-recomputation-raises", f"{op['op']}: re-evaluating the returned state raised {e}", e.site)
+
+    def _apply(self, op):
         ctx = self.ctx
         name = op["op"]
         if name.startswith("sim_"):
